@@ -147,9 +147,31 @@ def cases(ctx):
             yield ("filter",) + es
 
 
-def compare(o, events, what, enforce=True):
+def _summary(r):
+    if isinstance(r, Exception):
+        return ("raised", type(r).__name__)
+    return ([(sorted(c.description.items()), c.blob, c.actual_len, bool(c.encrypt_by_session_key)) for c in r.components], sorted(r.comments.items()))
+
+
+def compare(o, events, what, enforce=True, path=False):
     """Import the rendered text and compare with the reference importer."""
     text = B.render(events)
+    if path:
+        # the importer also takes a file name: same result as through a stream
+        import os
+        fn = os.path.join(shapes.tmpdir(), "c13-%d.bf2" % os.getpid())
+        with open(fn, "w") as fh:
+            fh.write(text)
+        try:
+            via_path = Bf3File.bf2_import(fn, enforce)
+        except Exception as e:
+            via_path = e
+        try:
+            via_stream = Bf3File.bf2_import(io.StringIO(text), enforce)
+        except Exception as e:
+            via_stream = e
+        if _summary(via_path) != _summary(via_stream):
+            o.viol("path|differs", "%s: importing through a file name gives another result than through a stream" % what)
     try:
         exp = B.run(events, enforce)
     except B.RejectFormat as r:
@@ -304,7 +326,7 @@ def run_case(ctx, case):
             evs.append(("group", B.image_lines(t, image(ctx, "in", 20), 8, extra=b"\x02")))
         if name.startswith("selif") and t == 0x70 and extra_evs[0][2]["PROTOCOL"] in ("*",):
             return Outcome("loader-without-interface-not-judged", False)
-        compare(o, evs, "instruction case %s" % name)
+        compare(o, evs, "instruction case %s" % name, path=True)
         if name == "no-marker":
             o2 = Outcome("ok")
             compare(o2, evs, "no marker, compatibility not enforced", enforce=False)
@@ -322,7 +344,7 @@ def run_case(ctx, case):
             evs.append(("group", B.image_lines(t, image(ctx, "mu-" + s, 11), 4, index0=idx, extra=b"\x03")))
             evs.append(("instr", "REBOOT", {}))
             idx += 8
-        compare(o, evs, "sections %r" % (case[1:],))
+        compare(o, evs, "sections %r" % (case[1:],), path=True)
         return o
     if kind == "sm":
         compare(o, sm_events(ctx, case[1:]), "event sequence %r" % ([EVK[k] for k in case[1:]],))
